@@ -157,6 +157,11 @@ Definition tables : list stable := [
                                     "RES"; "NLP"; "MCI"; "REO"; "RST"; "AXI"; "AXC"; "RIP"; "NCI"; "ALC"; "AXM"; "SLC"; "MAL"; "PLH"; "IPB"]);
   (* SMALL_AII (11) belongs to the later revision of the document that also adds IS_AIC / IS_AII: unasserted *)
   mkST "SMALL" "SMALL_" (seq_entries ["NONE"; "SSP"; "SSG"; "VTA"; "TMS"; "STP"; "RTP"; "NLI"; "ALC"; "LCS"; "LCL"] ++ [vu "AII" 11]);
+  (* IS_CIM: interface mode, and the sub-mode numbering of the three modes that have one *)
+  mkST "CIM" "CIM_" (seq_entries ["NORMAL"; "OPTIONS"; "HOST_OPTIONS"; "GARAGE"; "CAR_SELECT"; "TRACK_SELECT"; "SHIFTU"]);
+  mkST "NRM" "NRM_" (seq_entries ["NORMAL"; "WHEEL_TEMPS"; "WHEEL_DAMAGE"; "LIVE_SETTINGS"; "PIT_INSTRUCTIONS"]);
+  mkST "GRG" "GRG_" (seq_entries ["INFO"; "COLOURS"; "BRAKE_TC"; "SUSP"; "STEER"; "DRIVE"; "TYRES"; "AERO"; "PASS"]);
+  mkST "FVM" "FVM_" (seq_entries ["PLAIN"; "BUTTONS"; "EDIT"]);
   mkST "TTC" "TTC_" [vr "NONE" 0; v "SEL" 1; v "SEL_START" 2; v "SEL_STOP" 3];
   mkST "VIEW" "VIEW_" [v "FOLLOW" 0; v "HELI" 1; v "CAM" 2; v "DRIVER" 3; v "CUSTOM" 4; v "ANOTHER" 255];
   mkST "RACEINPROG" "" [vn "No" 0; vn "Racing" 1; vn "Qualifying" 2];
